@@ -1,6 +1,8 @@
 package main
 
 import (
+	"os"
+	"path/filepath"
 	"strings"
 )
 
@@ -101,10 +103,72 @@ func runC06(ctx *Ctx) *Report {
 			cases = append(cases, c)
 		}
 	}
+	// "nothing that existed before has changed", whatever the names: paths that would resolve onto existing
+	// entries (a `..` or `.` element below a root) with files and directories already there
+	for hi, doc := range []string{
+		"- a\n  - ..\n    - keep.txt\n", "- a\n  - ..\n    - old\n      - x\n", "- a\n  - .\n    - keep.txt\n", "- a\n  - b\n    - ..\n      - ..\n        - keep.txt\n",
+		"- a\n  - ..\n    - a\n      - new.txt\n", "- r\n  - x\n- a\n  - ..\n    - r\n      - y.txt\n",
+	} {
+		for ei, exts := range [][]string{{".txt"}, nil, {"keep.txt", "old"}} {
+			c := newCase("mkdir")
+			c.Doc, c.DocText, c.Exts, c.Target, c.Note = hxs(doc), doc, exts, "t", "dot element below a root"
+			c.Pre = []FSEntry{{"t", "d"}, {"t/keep.txt", "f7"}, {"t/old", "d"}, {"t/old/x", "f2"}, {"keep.txt", "f3"}}
+			cases = append(cases, c)
+			if hi < 5 && ei == 0 {
+				c2 := c
+				c2.Doc, c2.DocText, c2.FromRoot = "", "", true
+				c2.Tree = parseDocTree(doc).Enc()
+				cases = append(cases, c2)
+			}
+		}
+	}
 	rep.Exhaustive = true
 	rep.Notes = append(rep.Notes, "every forest ≤ "+itoa(n)+" nodes with distinct roots over {a, b.go, Makefile} × rotating extension lists × target states")
 	runCases(rep, cases, ctx.Workers, func(c Case) bool { return len(c.Doc) > 24 })
+	// the command line hands the extension list over as given: `gtree mkdir -e …` creates what the model says
+	// for that list (whole-name suffixes such as Makefile, overlapping suffixes, none)
+	{
+		bin := cliBinary()
+		m := NewModel()
+		defer m.Close()
+		doc := []byte("- r\n  - Makefile\n  - main.go\n  - x_test.go\n  - go\n  - lib\n    - .go\n    - a.Makefile\n")
+		for ei, exts := range [][]string{{"Makefile"}, {".go", "Makefile"}, {"_test.go"}, {"go"}, nil, {".go", ".go"}, {"Makefile", ".Makefile"}} {
+			jail := newJail()
+			args := []string{"mkdir", "--target-dir", filepath.Join(jail, "t")}
+			for _, e := range exts {
+				args = append(args, "-e", e)
+			}
+			before := snapshot(jail)
+			run := execCli(bin, jail, args, doc, "pipe")
+			after := snapshot(jail)
+			realv := "fs=" + strings.Join(after, ",") + " w=- e=" + ifs(run.code == 0, "nil", "fail")
+			resp := m.Ask("mkdir " + fmtDefault.enc() + " " + hxList(exts) + " " + hxs(filepath.Join(jail, "t")) + " 0 " + encFS(jail, before) + " 0 " + hx(doc))
+			modelv := resp
+			if strings.HasPrefix(resp, "fs=") {
+				parts := strings.SplitN(resp, " ", 2)
+				modelv = "fs=" + stripAmbient(jail, strings.TrimPrefix(parts[0], "fs=")) + " " + parts[1]
+			}
+			rep.Record(map[string]any{"kind": "cli-mkdir", "args": args[3:], "doc": string(doc)}, "cli-mkdir:"+fmtInt(ei), true, cmp("gtree mkdir -e …", realv, modelv))
+			rep.Count("cli:mkdir -e")
+			os.RemoveAll(jail)
+		}
+	}
 	return rep
+}
+
+// parseDocTree reads a one-root, two-space, hyphen-bullet document into a Tree (harness helper).
+func parseDocTree(doc string) *Tree {
+	var stack []*Tree
+	for _, l := range strings.Split(strings.TrimSuffix(doc, "\n"), "\n") {
+		t := strings.TrimLeft(l, " ")
+		depth := (len(l) - len(t)) / 2
+		n := &Tree{Name: strings.TrimPrefix(t, "- ")}
+		if depth > 0 {
+			stack[depth-1].Kids = append(stack[depth-1].Kids, n)
+		}
+		stack = append(stack[:depth], n)
+	}
+	return stack[0]
 }
 
 var hostilePathNames = []string{"..", ".", "a/b", "/x", "x/", "../..", "../../../evil", "a/../../b", "\xff", "ok", "...", "..a", "a\\b", "con", " ", "x\x00y", "./x", ".//x", "./", "x/."}
